@@ -224,21 +224,85 @@ func (e *Engine) Discharge(obls []*Obligation, par int) {
 	if par < 1 {
 		par = 1
 	}
+	solve := func(o *Obligation) {
+		o.Query = e.BuildQuery(o, declsFor(o))
+		h := sha1.Sum([]byte(o.ID))
+		o.Result = smt.Solve(e.WorkDir, fmt.Sprintf("q_%x", h[:8]), o.Query, e.TimeoutS)
+	}
+	// Frame obligations of one program point share prefix and reach condition and differ only in the
+	// heap cell they talk about: they are first tried as one conjunction, and only if that is not
+	// proved are they solved one by one (so a failure is still reported per cell).
+	type job struct {
+		single *Obligation
+		batch  []*Obligation
+	}
+	var jobs []job
+	groups := map[string][]*Obligation{}
+	var order []string
+	for _, o := range obls {
+		if o.Class == "FRAME" && o.ni == nil && o.fs != nil && !e.NoBatch {
+			site := o.Site
+			if i := strings.LastIndex(site, ": "); i >= 0 {
+				site = site[:i]
+			}
+			k := fmt.Sprintf("%p/%s/%s", o.fs, site, o.Reach)
+			if _, ok := groups[k]; !ok {
+				order = append(order, k)
+			}
+			groups[k] = append(groups[k], o)
+			continue
+		}
+		jobs = append(jobs, job{single: o})
+	}
+	for _, k := range order {
+		g := groups[k]
+		if len(g) == 1 {
+			jobs = append(jobs, job{single: g[0]})
+		} else {
+			jobs = append(jobs, job{batch: g})
+		}
+	}
 	var wg sync.WaitGroup
-	ch := make(chan *Obligation)
+	ch := make(chan job)
 	for w := 0; w < par; w++ {
 		wg.Add(1)
 		go func() {
 			defer wg.Done()
-			for o := range ch {
-				o.Query = e.BuildQuery(o, declsFor(o))
-				h := sha1.Sum([]byte(o.ID))
-				o.Result = smt.Solve(e.WorkDir, fmt.Sprintf("q_%x", h[:8]), o.Query, e.TimeoutS)
+			for j := range ch {
+				if j.single != nil {
+					solve(j.single)
+					continue
+				}
+				var goals []string
+				for _, o := range j.batch {
+					goals = append(goals, o.Goal)
+				}
+				b := *j.batch[0]
+				for _, o := range j.batch {
+					if o.prefix > b.prefix {
+						b.prefix = o.prefix // no instruction runs between the members: what is recorded for a later one holds for all
+					}
+				}
+				b.ID = j.batch[0].ID + fmt.Sprintf("+%d", len(j.batch)-1)
+				b.Goal = and(goals...)
+				solve(&b)
+				if b.Result.Status == "unsat" {
+					for _, o := range j.batch {
+						o.Query = b.Query
+						o.Result = b.Result
+						o.Result.Seconds = b.Result.Seconds / float64(len(j.batch))
+						o.Batched = len(j.batch)
+					}
+					continue
+				}
+				for _, o := range j.batch {
+					solve(o)
+				}
 			}
 		}()
 	}
-	for _, o := range obls {
-		ch <- o
+	for _, j := range jobs {
+		ch <- j
 	}
 	close(ch)
 	wg.Wait()
